@@ -80,11 +80,14 @@ def gen_cfg(rng, classes=None, equivariant: Optional[bool] = None, dims=(2, 2, 2
         "activation": rng.choice(["relu", "gelu", "tanh", "callable_gelu"] + ([None] if cls in ("ConvBlock", "ResNet", "DilResNet") else [])),
         "use_group_norm": norm,
         "preact": rng.random() < 0.5,
-        "kernel_size": 3,
+        # conventional convolutions take any kernel extent (even ones are padded asymmetrically by "SAME"); the equivariant
+        # path takes its extent from the filter bank
+        "kernel_size": 3 if eq else rng.choice([3, 3, 3, 1, 2, 4, 5]),
         "num_blocks": 1,
         "num_conv": rng.randint(1, 2),
         "num_downsamples": 1,
         "torus": rng.choice([True, True, False, "mixed"]),
+        "bank_order": rng.choice(["sorted", "sorted", "reversed", "rotated"]) if eq else "sorted",
     }
     if cls == "UNet":
         cfg["spatial"] = [4] * D if D == 3 else rng.choice([[4, 4], [4, 8], [8, 4]])
@@ -111,11 +114,21 @@ def _act(a):
     return a
 
 
+def _reordered(bank, how: str):
+    """the same filter bank with its blocks stored in another key order (as get_invariant_filters returns it for
+    parities=[1, 0] or descending ks); a model must not care, and the order flips to sorted at the first pytree round trip"""
+    if how == "sorted":
+        return bank
+    items = list(bank.items())
+    items = items[::-1] if how == "reversed" else items[1:] + items[:1]
+    return geom.MultiImage(dict(items), bank.D, bank.is_torus)
+
+
 def build_model(cfg: dict, key) -> Any:
     D = cfg["D"]
     b = banks(D, needs_big(cfg)) if cfg["equivariant"] else None
-    conv_filters = b["conv"] if b else None
-    up_filters = b["up"] if b else None
+    conv_filters = _reordered(b["conv"], cfg.get("bank_order", "sorted")) if b else None
+    up_filters = _reordered(b["up"], cfg.get("bank_order", "sorted")) if b else None
     in_sig, out_sig = sig(cfg["in_sig"]), sig(cfg["out_sig"])
     cls = cfg["cls"]
     if cls == "ConvContract":
